@@ -1,4 +1,6 @@
 #!/bin/bash
+# evidence of runs on a changed tree must not overwrite the committed evidence of the unchanged tree
+export VERIF_EVIDENCE_DIR=/verif/.cache/mutant_evidence
 # Re-run every seeded change against the quick check of its property; writes seeded/RESULTS.tsv.
 # usage: tools/mutant_all.sh   (applies each patch to /repo, runs the check, restores /repo)
 cd /verif
